@@ -1,8 +1,256 @@
+// c16.go (C16, byte-level half): a wire-level rewriter that produces re-encodings of a really signed
+// StdTx and asks the REAL decoder whether they still decode to the same signed content.
+//
+//	c16 <class> <path> <b0> <b1> => <accepted> <same-content> <same-sign-bytes> <signature-verifies> <tx-hash-differs>
+//
+// b0 is the canonical encoding (DefaultTxEncoder), b1 the rewritten one.  `path` names the (nested)
+// message the rewrite was applied to: "" the ProtoStdTx itself, "1" the Any, "1.2" the message inside
+// Any.value, "2" the first fee coin, "3" the signature.
 package main
 
 import (
+	stded "crypto/ed25519"
+	"encoding/hex"
+	"fmt"
+	"os"
+	"path/filepath"
+	"reflect"
+	"sort"
+	"strings"
+
 	"github.com/pokt-network/pocket-core/codec"
+	"github.com/pokt-network/pocket-core/crypto"
+	sdk "github.com/pokt-network/pocket-core/types"
+	appstypes "github.com/pokt-network/pocket-core/x/apps/types"
+	authtypes "github.com/pokt-network/pocket-core/x/auth/types"
+	govtypes "github.com/pokt-network/pocket-core/x/gov/types"
+	nodestypes "github.com/pokt-network/pocket-core/x/nodes/types"
+	pctypes "github.com/pokt-network/pocket-core/x/pocketcore/types"
+	"math/big"
+
+	"github.com/tendermint/tendermint/crypto/tmhash"
 	"verifharness/internal/gen"
+	"verifharness/internal/wirerw"
 )
 
-func runC16(r *gen.R, t *gen.Trace, cdc *codec.Codec, d *dumper, n int, corpus, notes string) {}
+// ---- the run ------------------------------------------------------------------------------------
+
+type c16stat struct {
+	tried, accepted, same, sign, sigok, hash, replay int
+	example                                          [2]string
+	paths                                            map[string]bool
+}
+
+func mkSignedTx(r *gen.R, chain string) (authtypes.StdTx, crypto.PrivateKey) {
+	seed := r.Bytes(32)
+	var arr [64]byte
+	copy(arr[:], stded.NewKeyFromSeed(seed))
+	priv := crypto.Ed25519PrivateKey(arr)
+	from := sdk.Address(priv.PublicKey().Address())
+	to := sdk.Address(r.Bytes(20))
+	var msg sdk.ProtoMsg
+	switch r.Intn(6) {
+	case 0, 1:
+		msg = &nodestypes.MsgSend{FromAddress: from, ToAddress: to, Amount: sdk.NewInt(int64(1 + r.Intn(1000000)))}
+	case 2:
+		msg = &govtypes.MsgDAOTransfer{FromAddress: from, ToAddress: to, Amount: sdk.NewInt(int64(r.Intn(5000))), Action: "dao_transfer"}
+	case 3:
+		msg = &appstypes.MsgStake{PubKey: priv.PublicKey(), Chains: []string{"0001", "0021"}, Value: sdk.NewInt(int64(1000000 + r.Intn(1000)))}
+	case 4:
+		msg = &pctypes.MsgClaim{SessionHeader: pctypes.SessionHeader{ApplicationPubKey: hex.EncodeToString(r.Bytes(32)), Chain: "0001", SessionBlockHeight: int64(1 + r.Intn(1000))},
+			MerkleRoot: pctypes.HashRange{Hash: r.Bytes(32), Range: pctypes.Range{Lower: 0, Upper: uint64(1 + r.Intn(100000))}}, TotalProofs: int64(1 + r.Intn(1000)), FromAddress: from, EvidenceType: pctypes.RelayEvidence}
+	default:
+		msg = &govtypes.MsgChangeParam{FromAddress: from, ParamKey: "pos/StakeMinimum", ParamVal: []byte("\"15000000000\"")}
+	}
+	fee := sdk.NewCoins(sdk.NewCoin("upokt", sdk.NewInt(int64(10000+r.Intn(100)))))
+	memo := r.Pick([]string{"", "m", "hello <world>", "é"})
+	entropy := int64(r.U64() >> 1)
+	if r.Chance(1, 4) {
+		entropy = 0
+	}
+	sb, err := authtypes.StdSignBytes(chain, entropy, fee, msg, memo)
+	if err != nil {
+		panic(err)
+	}
+	sig, err := priv.Sign(sb)
+	if err != nil {
+		panic(err)
+	}
+	tx := authtypes.NewTx(msg, fee, authtypes.StdSignature{PublicKey: priv.PublicKey(), Signature: sig}, memo, entropy).(authtypes.StdTx)
+	return tx, priv
+}
+
+func runC16(r *gen.R, t *gen.Trace, cdc *codec.Codec, d *dumper, n int, corpus, notes string) {
+	const height = int64(9000000) // after the codec upgrade: protobuf, no amino fallback
+	const chain = "c16-chain"
+	enc, dec := authtypes.DefaultTxEncoder(cdc), authtypes.DefaultTxDecoder(cdc)
+	stats := map[string]*c16stat{}
+	var order []string
+	stat := func(c string) *c16stat {
+		if stats[c] == nil {
+			stats[c] = &c16stat{paths: map[string]bool{}}
+			order = append(order, c)
+		}
+		return stats[c]
+	}
+	dumpTx := func(x sdk.Tx) string {
+		s, ok := x.(authtypes.StdTx)
+		if !ok {
+			return "not-stdtx"
+		}
+		return d.dumpValue("x.auth.ProtoStdTx", reflect.ValueOf(s))
+	}
+	judge := func(class, path string, b0, b1 []byte, tx0 authtypes.StdTx) {
+		st := stat(class)
+		st.tried++
+		st.paths[path] = true
+		v0 := dumpTx(tx0)
+		acc, same, sign, sigok := "0", "0", "0", "0"
+		res := try(func() string {
+			x, err := dec(b1, height)
+			if err != nil {
+				return "rejected"
+			}
+			acc = "1"
+			if dumpTx(x) == v0 {
+				same = "1"
+			}
+			sx := x.(authtypes.StdTx)
+			sb0, e0 := authtypes.StdSignBytes(chain, tx0.Entropy, tx0.Fee, tx0.Msg, tx0.Memo)
+			sb1, e1 := authtypes.StdSignBytes(chain, sx.Entropy, sx.Fee, sx.Msg, sx.Memo)
+			if e0 == nil && e1 == nil && string(sb0) == string(sb1) {
+				sign = "1"
+			}
+			if e1 == nil && sx.Signature.PublicKey != nil && sx.Signature.PublicKey.VerifyBytes(sb1, sx.Signature.Signature) {
+				sigok = "1"
+			}
+			return "ok"
+		})
+		if res == "PANIC" {
+			acc = "P"
+		}
+		hash := "0"
+		if string(tmhash.Sum(b0)) != string(tmhash.Sum(b1)) {
+			hash = "1"
+		}
+		if acc == "1" {
+			st.accepted++
+		}
+		if same == "1" {
+			st.same++
+		}
+		if sign == "1" {
+			st.sign++
+		}
+		if sigok == "1" {
+			st.sigok++
+		}
+		if hash == "1" {
+			st.hash++
+		}
+		if acc == "1" && same == "1" && sign == "1" && sigok == "1" && hash == "1" {
+			st.replay++
+			if st.example[0] == "" || len(b0) < len(st.example[0])/2 {
+				st.example = [2]string{hex.EncodeToString(b0), hex.EncodeToString(b1)}
+			}
+		}
+		p := path
+		if p == "" {
+			p = "top"
+		}
+		t.Line("c16/"+class, acc == "1", "c16 %s %s %s %s => %s %s %s %s %s", class, p, hex.EncodeToString(b0), hex.EncodeToString(b1), acc, same, sign, sigok, hash)
+	}
+
+	for i := 0; i < n; i++ {
+		tx, _ := mkSignedTx(r, chain)
+		b0, err := enc(tx, height)
+		if err != nil {
+			panic(err)
+		}
+		// sanity: the canonical bytes decode, verify and re-encode to themselves
+		x0, derr := dec(b0, height)
+		if derr != nil {
+			panic(derr.Error())
+		}
+		tx0 := x0.(authtypes.StdTx)
+		classes := wirerw.Classes()
+		cl := classes[i%len(classes)]
+		b1, path, ok := wirerw.Rewrite(r, cl.Name, b0)
+		if !ok && cl.Name == "bigint-text-alias" {
+			continue
+		}
+		judge(cl.Name, path, b0, b1, tx0)
+	}
+
+	// BigInt.Unmarshal on its own: decimal text, base-0 aliases, malformed text, range limit
+	alphabet := []byte("0123456789abfxXoOB_+-")
+	for i := 0; i < n/3; i++ {
+		var txt string
+		switch r.Intn(5) {
+		case 0:
+			al := wirerw.BigTextAliases(fmt.Sprint(int64(r.Intn(100000)) - 50000))
+			if len(al) > 0 {
+				txt = al[r.Intn(len(al))]
+			}
+		case 1:
+			x := new(big.Int).Lsh(big.NewInt(1), 255)
+			x.Sub(x, big.NewInt(int64(r.Intn(3))-1))
+			if r.Bool() {
+				x.Neg(x)
+			}
+			txt = x.String()
+		case 2:
+			txt = fmt.Sprint(r.U64())
+		default:
+			b := make([]byte, r.Intn(7))
+			for j := range b {
+				b[j] = alphabet[r.Intn(len(alphabet))]
+			}
+			txt = string(b)
+		}
+		res := try(func() string {
+			var x sdk.BigInt
+			if len(txt) == 0 {
+				if err := x.Unmarshal(nil); err != nil {
+					return "ERR"
+				}
+				return "NOP"
+			}
+			if err := x.Unmarshal([]byte(txt)); err != nil {
+				return "ERR"
+			}
+			return x.String()
+		})
+		t.Line("bigtext", res != "ERR", "bigtext %s => %s", hexs([]byte(txt)), res)
+	}
+
+	// per-class table and concrete examples for the chain-level half of C16
+	sort.Strings(order)
+	if notes != "" {
+		var sb strings.Builder
+		sb.WriteString("| class | applied at | tried | accepted by DefaultTxDecoder | same decoded content | same sign bytes | signature verifies | tx hash differs | => replayable re-encoding |\n|---|---|---|---|---|---|---|---|---|\n")
+		for _, c := range order {
+			s := stats[c]
+			var ps []string
+			for p := range s.paths {
+				if p == "" {
+					p = "top"
+				}
+				ps = append(ps, p)
+			}
+			sort.Strings(ps)
+			fmt.Fprintf(&sb, "| %s | %s | %d | %d | %d | %d | %d | %d | %d |\n", c, strings.Join(ps, " "), s.tried, s.accepted, s.same, s.sign, s.sigok, s.hash, s.replay)
+		}
+		os.WriteFile(notes, []byte(sb.String()), 0o644)
+	}
+	if corpus != "" {
+		os.MkdirAll(corpus, 0o755)
+		for _, c := range order {
+			s := stats[c]
+			if s.example[0] == "" {
+				continue
+			}
+			os.WriteFile(filepath.Join(corpus, c+".txt"), []byte(fmt.Sprintf("# class %s: canonical encoding, then a re-encoding accepted by the real decoder with equal content, equal sign bytes, valid signature and a different tx hash\n# chain id %q, decode height %d\n%s\n%s\n", c, chain, height, s.example[0], s.example[1])), 0o644)
+		}
+	}
+}
